@@ -23,11 +23,12 @@ import (
 	"github.com/deadsy/sdfx/vec/v3i"
 	. "verifharness/kit"
 	sk "verifharness/samplekit"
+	"verifharness/rendergen"
 	"verifharness/tabgen"
 )
 
 func main() {
-	Main("C07", check, func(c *Ctx) (string, []byte, error) { return tabgen.Gen(c.Repo) })
+	Main("C07", check, func(c *Ctx) (string, []byte, error) { return tabgen.Gen(c.Repo) }, rendergen.Gen)
 }
 
 const imp = "From Sdfx Require Import Render.C07Corr.\nOpen Scope float_scope."
@@ -49,6 +50,8 @@ type Spec struct {
 	// path "reuse": ONE renderer object (Renderer: octree | quadtree | uniform) renders Seq in order
 	Renderer string `json:"renderer,omitempty"`
 	Seq      []Spec `json:"seq,omitempty"`
+	// (items of Seq) only Info is called for this model, not Render
+	InfoOnly bool `json:"info_only,omitempty"`
 }
 
 func (s *Spec) key() string {
